@@ -175,8 +175,11 @@ def carrier(spec):
             return [1, [2, 3]]                # not a rectangular array
         return {'unsupported': 1} if not spec[1:] or spec[1] == 'dict' else {1, 2}
     if k == 'a':
-        dt = np.dtype(spec[1])
         vals = [dy(n, e) for n, e in spec[3]]
+        if spec[1] == 'str':
+            # a NumPy array of decimal literals
+            return np.array([dec_str(v) for v in vals]).reshape(tuple(spec[2]))
+        dt = np.dtype(spec[1])
         if dt == np.dtype(object):
             # an array of Python numbers: whole values as int, the others as float (mixed element types)
             arr = np.empty(len(vals), dtype=object)
@@ -205,6 +208,8 @@ def carrier(spec):
 def is_string_spec(spec):
     k = spec[0]
     if k in ('s', 'b', 'h'):
+        return True
+    if k == 'a' and spec[1] == 'str':
         return True
     if k in ('l', 't'):
         return any(is_string_spec(s) for s in spec[1])
